@@ -1243,6 +1243,55 @@ theorem jacobian_value (procs : List (Process K)) (m : NameMap) (t : PSTables K)
       rw [dMonomial_of_not_mem _ _ _ (fun h => hjm' (specReactIds_subset m _ _ h))]; ring)]
     ring
 
+omit [CommRing K] in
+/-- one reaction, one independent variable: one entry per occurrence of the variable, each with
+    the first occurrence removed from the dependents -/
+theorem entries_single (m : NameMap) (hk : (m.map (·.1)).Nodup) (hv : (m.map (·.2)).Nodup)
+    (nv : String × Nat) (hnv : nv ∈ m) (p : Process K)
+    (hparam : ∀ r ∈ p.reactants, r.param = true → nmLookup m r.name = none) :
+    buildJacobianEntries [nv] [resolveProc m p]
+      = List.replicate ((specReactIds m p.reactants).count nv.2) (mkEntry nv (resolveProc m p, 0)) := by
+  rw [buildJacobianEntries_eq]
+  simp only [List.zipIdx_cons, List.zipIdx_nil, List.flatMap_cons, List.flatMap_nil, List.append_nil]
+  rw [← count_name_eq_count_id m hk hv nv hnv p.reactants hparam]
+  rfl
+
+/-- ... and the `d_rate_d_ind` values of these entries add up to `k · ∂(Π y)/∂y_ind` -/
+theorem entries_single_sum (m : NameMap) (hk : (m.map (·.1)).Nodup) (hv : (m.map (·.2)).Nodup)
+    (nv : String × Nat) (hnv : nv ∈ m) (p : Process K)
+    (hparam : ∀ r ∈ p.reactants, r.param = true → nmLookup m r.name = none) (y : Array K) (kr : K) :
+    ((buildJacobianEntries [nv] [resolveProc m p]).map
+        (fun e => e.deps.foldl (fun acc i => acc * rd y i) kr)).sum
+      = kr * dMonomial (rd y) (specReactIds m p.reactants) nv.2 := by
+  rw [entries_single m hk hv nv hnv p hparam, sum_map_replicate, foldl_mul_eq]
+  simp only [mkEntry, resolveProc, dMonomial]
+  ring
+
 end Assemble
+
+section Defined
+variable {α : Type}
+
+/-- `SetJacobianFlatIds` cannot throw on any pattern that contains the declared elements -/
+theorem flatIds_defined (procs : List (Process α)) (m : NameMap) (t : PSTables α)
+    (hb : ProcessSet.build procs m = .ok t) (hk : (m.map (·.1)).Nodup)
+    (hparam : ∀ p ∈ procs, ∀ r ∈ p.reactants, r.param = true → nmLookup m r.name = none)
+    (p : Pattern) (hp : ∀ x ∈ t.nonZeroJacobianElements, ∃ q, p.rank x.1 x.2 = .ok q) :
+    t.jacobianFlatIds p = .ok ((buildJacobianEntries (sortByIdx m) (procs.map (resolveProc m))).flatMap
+      (entryFlatIds p.rk)) := by
+  obtain ⟨h1, h2, h3, _⟩ := build_ok procs m t hb
+  unfold PSTables.jacobianFlatIds
+  rw [h1, h2, h3]
+  have := (flatIdsGo_decode p _ (buildJacobianEntries_WF (sortByIdx m) (procs.map (resolveProc m)))
+    [] [] _).mpr ⟨?_, rfl⟩
+  · simpa using this
+  · intro e he
+    obtain ⟨hd, hdiag, hpr⟩ := entries_in_nonZero procs m t hb hk hparam e he
+    have pres : ∀ x, x ∈ t.nonZeroJacobianElements → p.Present x.1 x.2 := fun x hx => by
+      obtain ⟨q, hq⟩ := hp x hx
+      exact p.present_of_ok _ _ q hq
+    exact ⟨fun x hx => pres _ (hd x hx), pres _ hdiag, fun pr hpr' => pres _ (hpr pr hpr')⟩
+
+end Defined
 
 end Micm
